@@ -14,7 +14,7 @@ func init() {
 			"incremented by exactly one, once per QueueVSCPackets, after all packets of the epoch were stamped with the pre-increment id; " +
 			"EndBlockCIS (id -> height+1) runs before EndBlockVSU; the consumer records height+1 -> packet id on receipt and carries the id " +
 			"forward every BeginBlock; slash packets carry the id looked up for the infraction height; the provider maps id 0 to the " +
-			"channel-opening height and other ids through the id->height table, rejects unknown ids before any effect and slashes at the mapped height.",
+			"channel-opening height and other ids through the id->height table, rejects unknown ids before any effect and slashes at the mapped height; the accessors of the id counter, the id->height table, the init height and the consumer's height->id table use their own key space and store their value parameter.",
 		NotDecided: []string{"strict monotonicity as observed on the wire (follows from R1/R2 together with IBC ordered delivery, which is trusted)", "arithmetic of epoch lengths"},
 		Run:        runC12,
 	})
